@@ -14,12 +14,16 @@ structure JoinArgs where
   key : Str
   p : Params
   grab : Bool
+  manual : Bool := false
 
 structure GroupState where
   s : St := {}
   joined : List (Str × Str) := []              -- harness `members`: m ↦ group name it joined with
   args : List (Str × JoinArgs) := []           -- parked joins
   nextConn : Nat := 0
+  manual : List Str := []                      -- held members: joined, accept loop not started (harness `manual`)
+  dials : List (Nat × Nat × Nat) := []         -- kept user connections still waiting: (dial id, model conn, gid)
+  ids : List Nat := []                         -- dial ids used
 
 def kindOf : String → Option Kind
   | "tcp" => some .tcp | "http" => some .http | "mux" => some .mux | _ => none
@@ -83,7 +87,10 @@ def doEnter (fx : Fix) (st : GroupState) (m g : Str) (a : JoinArgs) (impl : Stri
     let joined := match r with
       | .ok _ => (m, g) :: st.joined.filter (fun x => !(x.1 == m))
       | _ => st.joined
-    ({ st with s := s', joined := joined }, renderJoin s' m r, some prop)
+    let manual := match r with
+      | .ok _ => if a.manual then m :: st.manual.filter (fun x => !(x == m)) else st.manual.filter (fun x => !(x == m))
+      | _ => st.manual
+    ({ st with s := s', joined := joined, manual := manual }, renderJoin s' m r, some prop)
 
 /-- endpoints currently held: (key, some gid = a group object | none = somebody else) -/
 def holders (s : St) : List (EpKey × Option Nat) :=
@@ -119,9 +126,11 @@ def deliver (fx : Fix) (st : GroupState) (gid : Nat) (impl : String) : GroupStat
   | none => (st, "impossible", prop)
   | some (s1, _) =>
     let st1 := { st with s := s1, nextConn := c + 1 }
+    -- only a member that is inside Accept can be the receiver
+    let auto := o.members.filter (fun m => !st.manual.contains m)
     let m := match got with
-      | some m => if o.members.contains m then m else o.members.headD []
-      | none => o.members.headD []
+      | some m => if auto.contains m then m else auto.headD []
+      | none => auto.headD []
     match step fx s1 (.handoff c m) with
     | none => (st1, "blocked", prop)
     | some (s2, .to m') => ({ st1 with s := s2 }, "to:" ++ hx m', prop)
@@ -149,8 +158,64 @@ def epOfTokens (k : Kind) (a b c : String) : Option EpKey :=
   | .http => do let d ← tokStr a; let l ← tokStr b; let u ← tokStr c; pure (.route (toLower d) l u)
   | .mux => do let d ← tokStr a; let u ← tokStr b; pure (.route (toLower d) [] u)
 
+/-- every listed member of the object is held (none is inside Accept) -/
+def allHeld (st : GroupState) (gid : Nat) : Bool :=
+  let o := st.s.obj gid
+  !o.members.isEmpty && o.members.all st.manual.contains
+
+def parseFates (suf : String) : List (Nat × String) :=
+  (suf.splitOn ",").filterMap (fun p => match p.splitOn "=" with
+    | [a, b] => a.toNat?.map (fun n => (n, b))
+    | _ => none)
+
+def fateOf : Option String → C13.Fate
+  | none => .waiting
+  | some r => match memberOfImpl r with
+    | some m => .to m
+    | none => if r = "stuck" then .waiting else .closed
+
+/-- a kept connection reaches the worker of object `gid` -/
+def keep (fx : Fix) (st : GroupState) (id gid : Nat) : GroupState × String × Option Bool :=
+  let c := st.nextConn
+  match step fx st.s (.accept c gid) with
+  | none => (st, "impossible", none)
+  | some (s1, _) => ({ st with s := s1, nextConn := c + 1, dials := st.dials ++ [(id, c, gid)] }, "c", none)
+
+/-- what happens, by the end of an op, to the kept connections that are still waiting — in id order.
+    Channel closed (the group lost its last member): the worker's send fails and the connection is
+    closed.  Some member is inside Accept: the hand-off completes with one of them (the
+    implementation says which; any accepting member is allowed).  Otherwise it keeps waiting.
+    The property predicate `pendHolds` is evaluated on what the implementation reports. -/
+def settle (fx : Fix) (st : GroupState) (suffix : String) : GroupState × String × Option Bool :=
+  let impls := parseFates suffix
+  let ds := st.dials.mergeSort (fun a b => a.1 ≤ b.1)
+  let (st', parts, prop) := ds.foldl (fun (acc : GroupState × List String × Option Bool) d =>
+    let (st, parts, prop) := acc
+    let (id, c, gid) := d
+    let o := st.s.obj gid
+    let implR := impls.lookup id
+    let live := st.joined.map (·.1)
+    let accepting := live.filter (fun m => !st.manual.contains m)
+    let prop := some (prop.getD true && C13.pendHolds o live accepting (fateOf implR))
+    let auto := o.members.filter (fun m => !st.manual.contains m)
+    let gone := st.dials.filter (fun x => !(x.1 == id))
+    if o.chClosed then
+      match step fx st.s (.send c) with
+      | some (s', _) =>
+        ({ st with s := s', dials := gone }, if fx.closeOnFail then s!"{id}=closed" :: parts else parts, prop)
+      | none => (st, parts, prop)
+    else if auto.isEmpty then (st, parts, prop)
+    else
+      let m := match implR.bind memberOfImpl with
+        | some m => if auto.contains m then m else auto.headD []
+        | none => auto.headD []
+      match step fx st.s (.handoff c m) with
+      | some (s', .to m') => ({ st with s := s', dials := gone }, (s!"{id}=to:" ++ hx m') :: parts, prop)
+      | _ => (st, parts, prop)) (st, [], none)
+  (st', ",".intercalate parts.reverse, prop)
+
 /-- one op (everything except `reset` and `sched`) -/
-def groupOp (fx : Fix) (st : GroupState) (tok : List String) (impl : String) :
+def groupOpBase (fx : Fix) (st : GroupState) (tok : List String) (impl : String) :
     GroupState × String × Option Bool :=
   match tok with
   | [op, m, g, key, p1, p2, p3, p4, grab] =>
@@ -158,7 +223,8 @@ def groupOp (fx : Fix) (st : GroupState) (tok : List String) (impl : String) :
     | some m, some g, some key, some p =>
       -- the harness can grab only a port it knows in advance (a fixed port)
       let a : JoinArgs := { key := key, p := p,
-                            grab := grab = "1" && (match p with | .tcp _ 0 => false | _ => true) }
+                            grab := grab = "1" && (match p with | .tcp _ 0 => false | _ => true),
+                            manual := grab = "2" && st.s.kind != .http }
       if op = "join" then
         if busyName st m g then (st, "busy", none) else
         match step fx st.s (.lookup m g) with
@@ -186,7 +252,8 @@ def groupOp (fx : Fix) (st : GroupState) (tok : List String) (impl : String) :
       match st.joined.find? (·.1 == m) with
       | none => (st, "nomember", none)
       | some (_, g) =>
-        let st1 := { st with joined := st.joined.filter (fun x => !(x.1 == m)) }
+        let st1 := { st with joined := st.joined.filter (fun x => !(x.1 == m)),
+                             manual := st.manual.filter (fun x => !(x == m)) }
         let lab := if st.s.kind = .http then some (Label.leaveG m g)
                    else (st.s.gidOf m).map (Label.leaveL m)
         match lab with
@@ -196,6 +263,43 @@ def groupOp (fx : Fix) (st : GroupState) (tok : List String) (impl : String) :
           | none => (st1, "impossible", none)
           | some (s', .crash) => ({ st1 with s := s' }, "crash", none)
           | some (s', _) => ({ st1 with s := s' }, "-", none)
+  | ["resume", m] =>
+    match tokStr m with
+    | none => (st, "badargs", none)
+    | some m =>
+      if st.s.kind != .http && st.joined.any (·.1 == m) && st.manual.contains m then
+        ({ st with manual := st.manual.filter (fun x => !(x == m)) }, "-", none)
+      else (st, "noop", none)
+  | ["dial", id, a, b, c] =>
+    match id.toNat? with
+    | none => (st, "badargs", none)
+    | some id =>
+      if st.ids.contains id then (st, "dupid", none) else
+      let st1 := { st with ids := id :: st.ids }
+      match st.s.kind with
+      | .http => (st, "badop", none)
+      | .tcp =>
+        match a.toNat? with
+        | none => (st, "badargs", none)
+        | some r =>
+          if st.s.ext.contains (.port r) then (st1, "squat", none) else
+          match st.s.owner (.port r) with
+          | none => (st1, "refused", none)
+          | some gid => keep fx st1 id gid
+      | .mux =>
+        -- one kept connection at a time (a second one would wait inside vhost.Muxer.handle, not in the group)
+        if !st.dials.isEmpty then (st, "busy", none) else
+        match tokStr a, tokStr b, tokStr c with
+        | some d, some u, some pw =>
+          match routeFind st.s d [] u with
+          | none => (st1, "noroute", none)
+          | some none => (st1, "squat", none)
+          | some (some gid) =>
+            match (st.s.obj gid).params with
+            | .mux _ _ un pw' =>
+              if un ≠ [] ∧ (un ≠ u ∨ pw' ≠ pw) then (st1, "unauth", none) else keep fx st1 id gid
+            | _ => (st, "impossible", none)
+        | _, _, _ => (st, "badargs", none)
   | ["conn", a, b, c] =>
     let got := memberOfImpl impl
     match st.s.kind with
@@ -206,7 +310,7 @@ def groupOp (fx : Fix) (st : GroupState) (tok : List String) (impl : String) :
         if st.s.ext.contains (.port r) then (st, "squat", some (C13.connHolds none [] got)) else
         match st.s.owner (.port r) with
         | none => (st, "refused", some (C13.connHolds none [] got))
-        | some gid => deliver fx st gid impl
+        | some gid => if allHeld st gid then (st, "held", none) else deliver fx st gid impl
     | .http =>
       match tokStr a, tokStr b, tokStr c with
       | some d, some l, some u =>
@@ -224,12 +328,14 @@ def groupOp (fx : Fix) (st : GroupState) (tok : List String) (impl : String) :
           | none => (st, "impossible", none)
       | _, _, _ => (st, "badargs", none)
     | .mux =>
+      if !st.dials.isEmpty then (st, "busy", none) else
       match tokStr a, tokStr b, tokStr c with
       | some d, some u, some pw =>
         match routeFind st.s d [] u with
         | none => (st, "noroute", some (C13.connHolds none [] got))
         | some none => (st, "squat", some (C13.connHolds none [] got))
         | some (some gid) =>
+          if allHeld st gid then (st, "held", none) else
           match (st.s.obj gid).params with
           | .mux _ _ un pw' =>
             -- Muxer.handle: `if l.username != "" { checkAuth }`
@@ -250,10 +356,10 @@ def groupOp (fx : Fix) (st : GroupState) (tok : List String) (impl : String) :
       match step fx st.s (.unsquat k) with
       | none => (st, "impossible", none)
       | some (s', _) => ({ st with s := s' }, "-", none)
-  | ["view"] => (st, viewOf st.s, none)
+  | ["view"] =>
+    let ids := sortNats (st.dials.map (·.1))
+    (st, viewOf st.s ++ (if ids.isEmpty then "" else " open=" ++ ",".intercalate (ids.map (fun (n : Nat) => s!"{n}"))), none)
   | _ => (st, "badop", none)
-
-def freshState (k : Kind) : GroupState := { s := init k [1, 2, 3, 4, 5, 6, 7, 8] }
 
 def andProp (a b : Option Bool) : Option Bool :=
   match a, b with
@@ -261,6 +367,27 @@ def andProp (a b : Option Bool) : Option Bool :=
   | _, some false => some false
   | some true, _ => some true
   | _, x => x
+
+/-- the op itself, then (tcp / tcpmux; join, enter, leave, resume, dial) what became of the kept
+    connections: the implementation's result is `<op result>[|<id>=<fate>,…]` -/
+def groupOp (fx : Fix) (st : GroupState) (tok : List String) (impl : String) :
+    GroupState × String × Option Bool :=
+  let (implBase, implSuf) := match impl.splitOn "|" with
+    | [b, s] => (b, s)
+    | _ => (impl, "")
+  -- http: `connE` is the same request through ServeHTTP (chooseEndpoint + createConnByEndpoint);
+  -- both paths share the group's index and must rotate identically
+  let tok := match tok with
+    | "connE" :: rest => if st.s.kind == .http then "conn" :: rest else tok
+    | _ => tok
+  let (st1, r, p) := groupOpBase fx st tok implBase
+  if st1.s.kind != .http && implBase != "blocked" &&
+      ["join", "enter", "leave", "resume", "dial"].contains (tok.headD "") then
+    let (st2, suf, p2) := settle fx st1 implSuf
+    (st2, if suf = "" then r else r ++ "|" ++ suf, andProp p p2)
+  else (st1, r, p)
+
+def freshState (k : Kind) : GroupState := { s := init k [1, 2, 3, 4, 5, 6, 7, 8] }
 
 /-- a schedule run in the sacrificial child: fresh world, inner ops, the child may die -/
 def schedRun (fx : Fix) : GroupState → List String → List String → List String → Option Bool →
